@@ -24,7 +24,7 @@ def set_stage(run, pid, scs, judge, identity):
         t = [s for s in sc["sets"] if s["name"] == sc["target"]["name"]]
         t = t[0] if t else {}
         run.classes.add(("set", t.get("life"), t.get("deleting"), t.get("fin"), obs["res"],
-                         tuple((e["kind"], (e.get("member") or {}).get("verb")) for e in obs["events"])))
+                         tuple((e["kind"], (e.get("member") or {}).get("verb") or (e.get("phase") or {}).get("op")) for e in obs["events"])))
         if not mon:
             run.violation(identity, {"scenario": sc, "impl": obs}, True)
         elif not agree:
@@ -56,7 +56,10 @@ def set_check(run, pid, tier, seed, replay, n_quick, n_thorough, judge, identity
         run.cov["samples"] = [{"scenario": sc}]
         run.cov["rule"] = "replay"
         return
-    scs = corpus(pid) + setgen.gen(seed, n_quick if tier == "quick" else n_thorough, salt=pid)
+    n = n_quick if tier == "quick" else n_thorough
+    # worlds with delegated phases and ObjectSetPhase objects in arbitrary states (the same clauses, read for the
+    # phase objects): about a fifth of the local-only worlds
+    scs = corpus(pid) + setgen.gen(seed, n, salt=pid) + setgen.gen_delegated(seed, n // 5, salt=pid + "d")
     res = set_stage(run, pid, scs, judge, identity)
     n = len(res)
     samples = [{"scenario": s, "impl": {k: o[k] for k in ("res", "events")}} for s, o, _ in res[:1]]
@@ -75,5 +78,7 @@ def set_check(run, pid, tier, seed, replay, n_quick, n_thorough, judge, identity
         n += len(pres)
         samples += [{"scenario": s, "impl": {k: o[k] for k in ("res", "viol", "events") if k in o}} for s, o, _ in pres[:1]]
     run.cov["evaluations"] = n
-    run.cov["rule"] = rule + "; distinct = (level, lifecycle/flavor, outcome, request kinds in order)"
+    run.cov["rule"] = rule + ("; plus ObjectSets with delegated phases and pre-existing ObjectSetPhase objects in arbitrary states "
+                              "(stale / current status, paused mismatch, stale status.remotePhases uid, deleting, foreign controller, "
+                              "other class, terminating namespace); distinct = (level, lifecycle/flavor, outcome, request kinds in order)")
     run.cov["samples"] = samples
